@@ -77,7 +77,7 @@ CLAIMS = {
         ref="§7 C06"),
     "C12": dict(
         technique="Lean 4 proof (translated cut mask; cumulative-sum renumbering = order-preserving bijection; trailing-edge loop = greatest sub-list without degree-one vertices; permutation bookkeeping; angular order is a strict weak order ⇒ re-sorting the surviving edges = thinning out the old cyclic order ⇒ untouched faces survive) + exact correspondence",
-        text="Kernel-checked theorems: rotAt_thinned — the angular comparison of the model (quadrant + cross product, exact) is asymmetric and negatively transitive on non-zero vectors (angLt_asymm, angLt_negTrans), so the insertion sort of the surviving incident edges of a vertex equals the old sorted list with the deleted edges dropped (foldl_insertDesc_filter), for every vertex and every set of deleted edges; with face_survives this gives 'a plaquette none of whose edges was removed is a plaquette of the output' for the recomputed adjacency (edge labels kept; the renumbering is newIndex_spec). The boundary mask regenerated from the source is non-zero iff the edge crosses no selected boundary; masks keep row order and keep "
+        text="Kernel-checked theorems: rotAt_thinned — the angular comparison of the model (quadrant + cross product, exact) is asymmetric and negatively transitive on non-zero vectors (angLt_asymm, angLt_negTrans), so the insertion sort of the surviving incident edges of a vertex equals the old sorted list with the deleted edges dropped (foldl_insertDesc_filter), for every vertex and every set of deleted edges; with face_survives this gives 'a plaquette none of whose edges was removed is a plaquette of the output' for the recomputed adjacency (edge labels kept); rotAt_thin / rotAt_cut: with the renumbering included — row e of the input arrays is row rank(e) of the masked arrays (filterIdx_getD), the kept indices renumber to 0,1,2,… (kept_map_rank) — the incident-edge row of the lattice returned by cut_boundaries (any edge deletion) is the old row with the deleted edges dropped and the survivors renamed to their new indices. The boundary mask regenerated from the source is non-zero iff the edge crosses no selected boundary; masks keep row order and keep "
              "edges aligned with their crossings; vertices untouched by cutting; new_index[v] is the position of v among the kept vertices (order-preserving bijection "
              "onto 0..k-1, strictly monotone, positions follow), an edge survives iff both ends are kept and the reported set is its complement; the trailing-edge "
              "loop yields a sub-list without degree-one vertices that contains every such sub-list (multigraphs included) and is idempotent; for a permutation, "
@@ -147,11 +147,10 @@ CLAIMS = {
              "the real-space matrix of the tiling maps the plane wave φ⊗v to φ⊗(Bloch(φ)·v), so every Bloch eigenvector lifts to an eigenvector of the tiled matrix with the same "
              "eigenvalue — this fixes the sign and direction of the crossing vector, the conjugate placement and the accumulation; at the trivial character the Bloch matrix is the "
              "real-space matrix of the cell; for unitary characters and conjugate weights it is Hermitian; koala's characters exp(i k·δ) are multiplicative, 2π-periodic in each "
-             "component and equal to 1 on whole-system translations at the allowed momenta 2π(m_x/n_x, m_y/n_y). charpoly_tiled_eq_prod_bloch: for every finite abelian group G of cells and every list of complex bonds, the characteristic polynomial of the tiled matrix equals the product over all characters ψ of G of the characteristic polynomials of the Bloch matrices — the plane waves of all characters form an invertible matrix (character orthogonality, Mathlib's AddChar.sum_apply_eq_ite), the tiled matrix is conjugate to the block-diagonal matrix of Bloch matrices, and charpoly of a block-diagonal matrix is the product (charpoly_blockDiagonal): the union of the Bloch spectra IS the tiled spectrum, with multiplicities. Entries of k_hamiltonian at momenta in (π/2)ℤ² are compared with the "
+             "component and equal to 1 on whole-system translations at the allowed momenta 2π(m_x/n_x, m_y/n_y). charpoly_tiled_eq_prod_bloch: for every finite abelian group G of cells and every list of complex bonds, the characteristic polynomial of the tiled matrix equals the product over all characters ψ of G of the characteristic polynomials of the Bloch matrices — the plane waves of all characters form an invertible matrix (character orthogonality, Mathlib's AddChar.sum_apply_eq_ite), the tiled matrix is conjugate to the block-diagonal matrix of Bloch matrices, and charpoly of a block-diagonal matrix is the product (charpoly_blockDiagonal): the union of the Bloch spectra IS the tiled spectrum, with multiplicities. charpoly_tiled_eq_prod_momenta specialises this to koala's cell group ℤ/n_x × ℤ/n_y with the product running over the n_x·n_y allowed momenta (orthogonality of the characters e^{2πi m g/N} of ℤ/N, sum_zmod), and momentumChar_eq_chi identifies these characters with koala's phases exp(i k·δ) at k = 2π(m_x/n_x, m_y/n_y). Entries of k_hamiltonian at momenta in (π/2)ℤ² are compared with the "
              "exact Gaussian-integer model; the union over allowed momenta of eigvalsh(H_k) is compared with the spectrum of koala's own n_x×n_y tiling (1×1..4×4, rectangular, "
              "multigraph cells, random u/J/colouring or None), Hermiticity, periodicity, k=0 and the three analysis helpers are evaluated on the implementation.",
-        note="Trusted: Lean kernel/Mathlib/standard axioms; harness; LAPACK eigvalsh (1e-9); exp at multiples of π/2 to 1e-12. That the characters of ℤ/n_x×ℤ/n_y are exactly the exp(i k·δ) at the allowed momenta is standard and used in words (chi_allowed proves one direction); the numerical "
-             "multiset equality is still evaluated on the implementation. The "
+        note="Trusted: Lean kernel/Mathlib/standard axioms; harness; LAPACK eigvalsh (1e-9); exp at multiples of π/2 to 1e-12. The numerical multiset equality is still evaluated on the implementation. The "
              "analysis helpers are decided on the implementation (cells with an odd number of sites are excluded: 'lower half' undefined).",
         ref="§7 C08"),
     "C15": dict(
